@@ -111,6 +111,11 @@ def run(ctx):
     from .c16 import rule_ns_of_tag
     rule_ns_of_tag(ctx, mir, rid="R06.7")
 
+    # ------------------------------------------------------------------ R06.9 (shared with C07 R07.5)
+    r = ctx.rule("R06.9", "end-tag handling in the dispatcher does not depend on the parser mode: the selector VM is told about a tag before the dispatcher tests whether content removal stops at it", "E-MIR", floor=1)
+    from .c07 import clause_vm_told_before_reenable
+    clause_vm_told_before_reenable(r, mir)
+
     # ------------------------------------------------------------------ R06.8 (shared with C04 R04.7)
     # match ids must not depend on how many other selectors are registered
     from .c04 import rule_absolute_indices
